@@ -13,6 +13,8 @@ import Qfx.Lemmas.CodecDictNest
 import Qfx.Lemmas.CodecAnyDict
 import Qfx.Lemmas.CodecTenWitness
 import Qfx.Lemmas.CodecDictItems
+import Qfx.Lemmas.CodecScanBridge
+import Qfx.Lemmas.CodecScanWitness
 import Qfx.Lemmas.CodecDictExample
 open Qfx Qfx.Spec
 
@@ -517,16 +519,80 @@ theorem C11_getters_total (d : Dicts) (w : Bytes) (m : Message) (hm : parseMessa
   have hv : ViewsOK m.fields (m.sec s) := by cases s <;> assumption
   exact ⟨getBytes_nofault hv t, getInt_nofault' hv t, fun f tmpl hf => getGroup_nofault hv t f hf tmpl⟩
 
-/-! ## not (yet) theorems — checked on every run by `Qfx.Spec.monParse` on the implementation and by the correspondence -/
+/-! ## the statements in the vocabulary of the independent scanner (`Qfx.Spec.scanFields` / `wfScanned` / `tagNum`) -/
 
-/-- for every well-formed wire message: success, fields in wire order with exact values, raw bytes unchanged -/
+/-- the statement as it used to stand here (a scanner that compares tag TEXTS against `8`, `9`, `10`; any dictionaries) -/
 def C11_faithful_full : Prop :=
   ∀ (d : Dicts) (w : Bytes) (fs : List WField), scanFields w = some fs → wfScanned fs = true →
     (fs.all fun f => (tagNum f.tagText).isSome && tagNum f.tagText != some 212) →
     ∃ m, parseMessage Fixes.cur d w = .ok m ∧ m.raw = some w ∧
       m.fields = fs.map (fun f => { tag := (tagNum f.tagText).getD 0, value := f.val, bytes := f.raw })
 
-/-- every field is retrievable from the section its tag belongs to (no dictionary) -/
+/-- … IS FALSE AS WRITTEN: `8=F 9=11 35=D 010=x 10=198` is well-formed for the scanner (the tag text `010` is not `10`, BodyLength and CheckSum
+    are right), all tag texts are numeric and none reads 212 — but the parser reads `010` as CheckSum, ends its loop there, leaves the
+    last slot of the field array empty and rejects the message with "incorrect message length" (`z_rejected`; replayed on the real parser
+    by the codec family, `junk.leadzero-checksum`: implementation and model both answer err).  The same happens with `09`, `08`, `0212`:
+    the side condition must be about NUMERIC tags (`C11_faithful_scanned`). -/
+theorem C11_faithful_full_false : ¬ C11_faithful_full := by
+  intro h
+  obtain ⟨m, hm, _, _⟩ := h Dicts.none zWire zScanned z_scan z_wf z_tags
+  rw [z_rejected Dicts.none rfl] at hm
+  cases hm
+
+/-- THE CORRECTED STATEMENT, ANY DICTIONARIES (fixed code): every byte string that the independent scanner splits into fields
+    (`scanFields`) and finds well-formed (`wfScanned`: 8, 9, 35 first, 10 last, BodyLength = bytes between the BodyLength field and the
+    CheckSum field, CheckSum right), all tag texts numeric (`tagNum`: optional '-', 1–18 digits), and NO FIELD BETWEEN MsgType AND CheckSum
+    WHOSE NUMERIC TAG IS 8, 9, 10 OR 212, of less than 2^63 bytes — parses under ANY dictionaries `d`; `Message.fields` is exactly the
+    scanned field list (tag = the number, value, raw bytes) in order, and the raw bytes are kept.  (`scanLoop_wire`: what the scanner
+    accepts is a concatenation of wire-form fields; `atoi_of_tagNum`: the scanner's number is `atoi`'s; `parse_wire_anydict`.) -/
+theorem C11_faithful_scanned (d : Dicts) (w : Bytes) (fs : List WField) (hscan : scanFields w = some fs) (hwf : wfScanned fs = true)
+    (hnum : ∀ f ∈ fs, (tagNum f.tagText).isSome)
+    (hmid : ∀ f ∈ (fs.drop 3).dropLast, ∀ t, tagNum f.tagText = some t → t ≠ 8 ∧ t ≠ 9 ∧ t ≠ 10 ∧ t ≠ 212)
+    (hsmall : w.length < 9223372036854775808) :
+    ∃ m, parseMessage Fixes.cur d w = .ok m ∧ m.raw = some w ∧
+      m.fields = fs.map (fun f => { tag := (tagNum f.tagText).getD 0, value := f.val, bytes := f.raw }) :=
+  faithful_scanned d w fs hscan hwf hnum hmid hsmall
+
+/-- RETRIEVABILITY IN THE SCANNER'S VOCABULARY (no dictionary; any `Fixes`): under the same conditions, the field at position `j` of the
+    scan whose numeric tag `t` no other field of the scan carries is returned by `GetBytes` from the section of `t` with its scanned value. -/
+theorem C11_retrievable_scanned (fx : Fixes) (w : Bytes) (fs : List WField) (hscan : scanFields w = some fs) (hwf : wfScanned fs = true)
+    (hnum : ∀ f ∈ fs, (tagNum f.tagText).isSome)
+    (hmid : ∀ f ∈ (fs.drop 3).dropLast, ∀ t, tagNum f.tagText = some t → t ≠ 8 ∧ t ≠ 9 ∧ t ≠ 10 ∧ t ≠ 212)
+    (hsmall : w.length < 9223372036854775808)
+    (j : Nat) (f : WField) (t : Int) (hj : fs[j]? = some f) (ht : tagNum f.tagText = some t)
+    (huniq : ∀ j' g, fs[j']? = some g → j' ≠ j → tagNum g.tagText ≠ some t) :
+    ∃ m, parseMessage fx Dicts.none w = .ok m ∧ (m.sec (secOf Dicts.none t)).getBytes m.fields t = .ok f.val := by
+  obtain ⟨f8, f9, f35, mid, f10, hfs, hwm, hwire, hbl, htag⟩ := scanned_wireMsg w fs hscan hwf hnum hmid hsmall
+  have hL : tvOf f8 :: tvOf f9 :: tvOf f35 :: (mid.map tvOf ++ [tvOf f10]) = fs.map tvOf := by rw [hfs]; simp
+  have hjL : (tvOf f8 :: tvOf f9 :: tvOf f35 :: (mid.map tvOf ++ [tvOf f10]))[j]? = some (tvOf f) := by
+    rw [hL, List.getElem?_map, hj]; rfl
+  have hft : (tvOf f).tag = t := htag f (List.mem_of_getElem? hj) t ht
+  obtain ⟨m, hm, hget⟩ := C11_retrievable_nodict fx _ _ _ _ _ hwm hbl j (tvOf f) hjL (by
+    intro j' tv' hj' hne
+    rw [hL, List.getElem?_map] at hj'
+    cases hg : fs[j']? with
+    | none => rw [hg] at hj'; cases hj'
+    | some g =>
+      rw [hg] at hj'
+      simp only [Option.map_some, Option.some.injEq] at hj'
+      subst hj'
+      have hgs := hnum g (List.mem_of_getElem? hg)
+      cases htg : tagNum g.tagText with
+      | none => rw [htg] at hgs; cases hgs
+      | some tg =>
+        rw [htag g (List.mem_of_getElem? hg) tg htg, hft]
+        intro e; subst e
+        exact huniq j' g hg hne htg)
+  rw [← hwire] at hm
+  rw [hft] at hget
+  exact ⟨m, hm, hget⟩
+
+/-- the retrievability statement as it used to stand here.  It differs from `C11_retrievable_scanned` only on scans that contain, between
+    MsgType and CheckSum, a field whose tag text reads 8, 9, 10 or 212 without being the text `8` / `9` / `10` (leading zeros), or real
+    XMLData (`212=<n>` followed by data with SOH inside): for those the parser usually rejects the message (then the statement holds
+    vacuously — its hypothesis is a successful parse), but e.g. `… 09=<the right length> …` is accepted with the later BodyLength in force.
+    Whether the statement holds for ALL such inputs is not decided here; it stays a `def`.  The monitor (`Spec.monParse`, `expectGet`)
+    uses numeric tags like the theorem. -/
 def C11_retrievable_full : Prop :=
   ∀ (w : Bytes) (fs : List WField) (m : Message), scanFields w = some fs → wfScanned fs = true →
     parseMessage Fixes.cur Dicts.none w = .ok m →
